@@ -373,11 +373,20 @@ func scenariosC12(tier string) []Scen {
 	for from := 0; from < len(names); from += batch {
 		to := min(from+batch, len(names))
 		d := c12Desc{Kind: "names", From: from, To: to, Sample: names[from:min(from+3, to)]}
-		out = append(out, Scen{Desc: d, Bound: 0, Horizon: 5000000, Body: c12Body(d, tier), Check: c12Check, Obs: c12Obs})
+		out = append(out, Scen{Desc: d, Bound: 0, Horizon: 5000000, Body: c12Body(d, tier), Check: c12Check, Obs: c12Obs, Cases: c12Cases})
 	}
 	for _, k := range []string{"typed", "rawserver"} {
 		d := c12Desc{Kind: k}
-		out = append(out, Scen{Desc: d, Bound: 1, Body: c12Body(d, tier), Check: c12Check, Obs: c12Obs})
+		out = append(out, Scen{Desc: d, Bound: 1, Body: c12Body(d, tier), Check: c12Check, Obs: c12Obs, Cases: c12Cases})
 	}
 	return out
+}
+
+func c12Cases(x *vsched.Exec) int {
+	if w := worldOf(x); w != nil {
+		if st, ok := w.LC.(*c12State); ok {
+			return st.calls
+		}
+	}
+	return 0
 }
